@@ -156,4 +156,8 @@ Qed.
 Example C13_asm_domain_is_sharp :
   (exists a, to_asm [x01; x51] = Ok a /\ new_from_asm a = Ok [x51]) /\
   (exists a, to_asm [x4c; x00] = Ok a /\ new_from_asm a = Ok []).
-Proof. split; eexists; split; vm_compute; reflexivity. Qed.
+Proof.
+  split.
+  - exists "OP_TRUE"%string. split; vm_compute; reflexivity.
+  - exists EmptyString. split; vm_compute; reflexivity.
+Qed.
